@@ -2,10 +2,10 @@
 
 The interpreter reads the real source files under the repository root on every run
 and executes the `ast` of the function under verification.  What it deliberately
-does NOT do (reported as `dropped` in the evidence): caching decorators
-(lru_cache/cache) are ignored, generators and generator expressions are evaluated
+does NOT do (reported as `dropped` in the evidence): generator functions are evaluated
 eagerly into lists, type annotations and docstrings are ignored, `abc`/`typing`
-machinery is ignored.
+machinery is ignored.  Memoising decorators used as `@lru_cache(...)` / `@cache` on a
+`def` are modelled (run_memoised: unbounded store, no eviction).
 """
 from __future__ import annotations
 
